@@ -320,7 +320,33 @@ func init() {
 	noop := func(e *Exec, st *State, fn *ssa.Function, args []Value, depth int) []Outcome {
 		return ret1(st, e.zeroResults(fn))
 	}
-	for _, n := range []string{"fmt.Println", "fmt.Printf", "fmt.Print", "fmt.Fprintf", "fmt.Fprintln", "fmt.Fprint",
+	// fmt.Fprintf into an in-memory buffer is real data flow (store keys are built that way); other writers are logs
+	R("fmt.Fprintf", func(e *Exec, st *State, fn *ssa.Function, args []Value, depth int) []Outcome {
+		w, ok := args[0].(Iface)
+		if ok && w.T != nil {
+			ts := w.T.String()
+			if ts == "*bytes.Buffer" || ts == "*strings.Builder" {
+				str, isStr := e.sprintf(st, args[1], args[2]).(string)
+				if !isStr {
+					unsupported("fmt.Fprintf of symbolic text into %s", ts)
+				}
+				m := e.Prog.LookupMethod(w.T, nil, "Write")
+				if m == nil {
+					unsupported("no Write method on %s", ts)
+				}
+				return e.callFn(st, m, []Value{w.V, e.stringToBytes(st, str)}, nil, depth+1, nil)
+			}
+		}
+		return ret1(st, e.zeroResults(fn))
+	})
+	// sync.Map is used as a read-through cache only (poolmanager.cachedPoolModules): modelled as always empty
+	R("(*sync.Map).Load", func(e *Exec, st *State, fn *ssa.Function, args []Value, depth int) []Outcome {
+		return []Outcome{{Kind: OutReturn, St: st, Ret: Tuple{Iface{}, e.TS.Bool(false)}}}
+	})
+	for _, n := range []string{"(*sync.Map).Store", "(*sync.Map).Delete"} {
+		R(n, noop)
+	}
+	for _, n := range []string{"fmt.Println", "fmt.Printf", "fmt.Print", "fmt.Fprintln", "fmt.Fprint",
 		"(*sync.Mutex).Lock", "(*sync.Mutex).Unlock", "(*sync.RWMutex).Lock", "(*sync.RWMutex).Unlock", "(*sync.RWMutex).RLock", "(*sync.RWMutex).RUnlock",
 		"runtime/debug.PrintStack", "log.Printf", "log.Println"} {
 		R(n, noop)
@@ -413,4 +439,88 @@ func (e *Exec) invokeHook(st *State, recv Iface, method *types.Func, args []Valu
 		}
 	}
 	return nil
+}
+
+// deepEq builds the condition under which two values of the same static type are reflect.DeepEqual
+// (structures of integers, booleans, strings, slices, arrays, structs, pointers and interfaces; nil slices differ from
+// empty ones as in reflect).
+func (e *Exec) deepEq(st *State, a, b Value, depth int) *Term {
+	if depth > 20 {
+		unsupported("reflect.DeepEqual on a deep or cyclic value")
+	}
+	switch x := a.(type) {
+	case *Term:
+		y, ok := b.(*Term)
+		if !ok {
+			unsupported("reflect.DeepEqual: %T vs %T", a, b)
+		}
+		if x.Sort == SBool {
+			return e.TS.Iff(x, y)
+		}
+		return e.TS.Eq(x, y)
+	case string:
+		y, ok := b.(string)
+		if !ok {
+			unsupported("reflect.DeepEqual on symbolic strings")
+		}
+		return e.TS.Bool(x == y)
+	case Slice:
+		y := b.(Slice)
+		if (x.Base.Obj == 0) != (y.Base.Obj == 0) || x.Len != y.Len {
+			return e.TS.Bool(false)
+		}
+		res := e.TS.Bool(true)
+		xs, ys := e.sliceElems(st, x), e.sliceElems(st, y)
+		for i := range xs {
+			res = e.TS.And(res, e.deepEq(st, xs[i], ys[i], depth+1))
+		}
+		return res
+	case *Agg:
+		y := b.(*Agg)
+		if len(x.Elems) != len(y.Elems) {
+			return e.TS.Bool(false)
+		}
+		res := e.TS.Bool(true)
+		for i := range x.Elems {
+			res = e.TS.And(res, e.deepEq(st, x.Elems[i], y.Elems[i], depth+1))
+		}
+		return res
+	case Iface:
+		y := b.(Iface)
+		if x.T == nil || y.T == nil {
+			return e.TS.Bool(x.T == nil && y.T == nil)
+		}
+		if !types.Identical(x.T, y.T) {
+			return e.TS.Bool(false)
+		}
+		return e.deepEq(st, x.V, y.V, depth+1)
+	case Ptr:
+		y, ok := b.(Ptr)
+		if !ok {
+			unsupported("reflect.DeepEqual: %T vs %T", a, b)
+		}
+		if x.Obj == 0 || y.Obj == 0 {
+			return e.TS.Bool(x.Obj == 0 && y.Obj == 0)
+		}
+		if x.Obj == y.Obj && len(x.Path) == len(y.Path) {
+			same := true
+			for i := range x.Path {
+				same = same && x.Path[i] == y.Path[i]
+			}
+			if same {
+				return e.TS.Bool(true)
+			}
+		}
+		return e.deepEq(st, e.load(st, x), e.load(st, y), depth+1)
+	case nil:
+		return e.TS.Bool(b == nil)
+	}
+	unsupported("reflect.DeepEqual on %T", a)
+	return nil
+}
+
+func init() {
+	intrinsics["reflect.DeepEqual"] = func(e *Exec, st *State, fn *ssa.Function, args []Value, depth int) []Outcome {
+		return ret1(st, e.deepEq(st, args[0], args[1], 0))
+	}
 }
